@@ -34,6 +34,9 @@ pub enum Via {
 	HttpContentLength,
 	HttpNoContentLength,
 	HttpChunked(Vec<u16>, bool),
+	/// one WebSocket message sent as two frames (text/binary first frame, continuation with FIN), cut at the given
+	/// place; each frame on its own is within the limit whenever the whole message is at most twice the limit
+	WsFragmented(u16, bool),
 }
 
 #[derive(Clone, Copy, Debug, Serialize, Deserialize, PartialEq)]
@@ -117,6 +120,7 @@ impl SubCheck for Sizes {
 			2 => Just(Via::HttpContentLength),
 			2 => Just(Via::HttpNoContentLength),
 			2 => (proptest::collection::vec(any::<u16>(), 1..5), any::<bool>()).prop_map(|(c, cl)| Via::HttpChunked(c, cl)),
+			2 => (any::<u16>(), any::<bool>()).prop_map(|(c, t)| Via::WsFragmented(c, t)),
 		];
 		let entry = prop_oneof![Just(EntryPoint::TowerService), Just(EntryPoint::LowLevel)];
 		(lim.clone(), lim, rel, pad, via, entry, 0u8..3)
@@ -172,7 +176,7 @@ impl SubCheck for Sizes {
 				}
 			};
 			match &case.via {
-				Via::WsText | Via::WsBinary => {
+				Via::WsText | Via::WsBinary | Via::WsFragmented(..) => {
 					let ws = match case.entry {
 						EntryPoint::TowerService => fix.ws().await,
 						EntryPoint::LowLevel => fix.ws_lowlevel().await,
@@ -184,7 +188,19 @@ impl SubCheck for Sizes {
 							return;
 						}
 					};
-					let r = if case.via == Via::WsText { ws.send_text(std::str::from_utf8(&bytes).unwrap()).await } else { ws.send_binary(&bytes).await };
+					let r = match &case.via {
+						Via::WsText => ws.send_text(std::str::from_utf8(&bytes).unwrap()).await,
+						Via::WsFragmented(cut, text) if bytes.len() >= 2 && bytes.len() <= 2 * case.max_request as usize => {
+							// both frames are within the limit on their own
+							let lim = case.max_request as usize;
+							let lo = bytes.len().saturating_sub(lim).max(1);
+							let hi = lim.min(bytes.len() - 1);
+							let at = lo + pick_idx(*cut, hi - lo + 1);
+							obs.class("ws-message-in-two-frames");
+							ws.send_fragmented(&bytes, *text, &[at]).await
+						}
+						_ => ws.send_binary(&bytes).await,
+					};
 					if let Err(e) = r {
 						obs.fail("c07/ws-send", format!("{desc}: {e}"));
 						return;
@@ -193,6 +209,16 @@ impl SubCheck for Sizes {
 					let frames = ws.drain();
 					let log = fix.ctx.log_since(log0);
 					let sig_entry = if case.entry == EntryPoint::LowLevel { "c07/ws-connect" } else { "c07/ws" };
+					let fragmented = matches!(case.via, Via::WsFragmented(..)) && bytes.len() >= 2 && bytes.len() <= 2 * case.max_request as usize;
+					if over && fragmented {
+						// Outside the property's domain ("single-frame message sizes"), only its safety half is asserted:
+						// nothing is parsed or dispatched. (What happens next is soketto's doing: on MessageTooLarge it
+						// discards as many bytes as the whole message had instead of what is left of the current frame,
+						// so the rejection is only written when more bytes arrive and the stream is out of step afterwards.)
+						obs.check(log.is_empty(), &format!("{sig_entry}-oversized-request-processed"), || format!("{desc}: log {log:?}"));
+						obs.class("fragmented-oversized-message (only 'not dispatched' is judged)");
+						return;
+					}
 					if over {
 						obs.check(log.is_empty(), &format!("{sig_entry}-oversized-request-processed"), || format!("{desc}: log {log:?}"));
 						let ok = frames.len() == 1
@@ -263,10 +289,21 @@ async fn run_tcp(case: &SizeCase, obs: &mut Obs) -> Result<(), String> {
 	let wall = std::time::Duration::from_secs(20);
 	let desc = format!("TCP Server: max_request={} max_response={} size={} pad={:?} via={:?}", case.max_request, case.max_response, size, case.pad, case.via);
 	match &case.via {
-		Via::WsText | Via::WsBinary => {
+		Via::WsText | Via::WsBinary | Via::WsFragmented(..) => {
 			let s = TcpStream::connect(addr).await.map_err(|e| format!("INCONCLUSIVE connect {e}"))?;
 			let mut ws = WsPeer::connect(s, tokio::spawn(async {})).await.map_err(|e| format!("INCONCLUSIVE handshake {e}"))?;
-			if case.via == Via::WsText { ws.send_text(std::str::from_utf8(&bytes).unwrap()).await } else { ws.send_binary(&bytes).await }.map_err(|e| format!("INCONCLUSIVE send {e}"))?;
+			match &case.via {
+				Via::WsText => ws.send_text(std::str::from_utf8(&bytes).unwrap()).await,
+				// (an oversized message goes as one frame here: see the in-memory sub-check for why)
+				Via::WsFragmented(cut, text) if !over && bytes.len() >= 2 => {
+					let lim = case.max_request as usize;
+					let lo = bytes.len().saturating_sub(lim).max(1);
+					let hi = lim.min(bytes.len() - 1);
+					ws.send_fragmented(&bytes, *text, &[lo + pick_idx(*cut, hi - lo + 1)]).await
+				}
+				_ => ws.send_binary(&bytes).await,
+			}
+			.map_err(|e| format!("INCONCLUSIVE send {e}"))?;
 			let first = tokio::time::timeout(wall, ws.events.recv()).await.map_err(|_| "INCONCLUSIVE no reply within the wall budget".to_string())?;
 			let log = ctx.log_since(0);
 			match first {
